@@ -27,6 +27,7 @@ ALLOWED_READERS = {
 
 def check(ctx):
     repo = ctx.repo
+    ctx.rule("R11.10", "no stateful closures: callables stored on the solver keep no state between calls", 1)
     ctx.rule("R11.9", "no function writes module-level or class-level state", 1)
     ctx.rule("R11.6", "arrays handed from update() to the runner are fresh (no view of an attribute-held solver buffer)", 12)
     ctx.rule("R11.7", "no function writes into an array it was handed (output-parameter table excepted)", 1)
@@ -120,6 +121,9 @@ def check(ctx):
     from ..effects import no_global_state
     no_global_state(ctx, "R11.9", "state kept outside the solver object and outside the saved frames: a resumed run, or a run recorded "
                                   "differently earlier in the same process, does not reproduce the uninterrupted one")
+    from ..effects import no_stateful_closures
+    no_stateful_closures(ctx, "R11.10", "state hidden in a closure is neither saved in a frame nor reset at the start of a run: resumed and "
+                                        "uninterrupted runs differ")
     from ..effects import cross_call_state, fresh_outputs, input_purity
     fresh_outputs(ctx, "R11.6", 'the field arrays kept by the Runner for the next frame alias a solver buffer that the next (possibly abandoned) update overwrites: frames depend on when they were written, and an interrupted step corrupts the previous state')
     input_purity(ctx, "R11.7", 'the solve modifies arrays owned by the caller or the recorder (seed solution fields, the state kept for the next frame): what is observed/resumed is no longer what was computed')
